@@ -38,11 +38,14 @@ class Model:
         return len(self.links_of) - 1
 
     def joining(self, a, b):
-        """Links whose two ends are exactly a and b, in a.links order."""
+        """
+        Links that join a and b, in a.links order: a link's two ENDS are its first two listed vertices
+        (v1, v2); vertices listed beyond them (Link.add_vertex) are associated with the link but are not ends.
+        """
         out = []
         for l in self.links_of[a]:
             e = self.ends[l]
-            if len(e) == 2 and ((e[0] == a and e[1] == b) or (e[1] == a and e[0] == b)):
+            if len(e) >= 2 and ((e[0] == a and e[1] == b) or (e[1] == a and e[0] != a and e[0] == b)):
                 out.append(l)
         return out
 
@@ -57,7 +60,7 @@ class Model:
             l, x = r[1], r[2]
             pos = 0 if name == "v1" else 1
             e = self.ends[l]
-            assert len(e) == 2, "model precondition: link has two listed ends"
+            assert len(e) >= 2, "model precondition: link lists at least two vertices"
             old = e[pos]
             e[pos] = x
             if old is not None and old not in e:
@@ -76,10 +79,18 @@ class Model:
             _, a, b, destroy = r
             rem = self.joining(a, b)
             for l in rem:
-                self.ends[l] = []
+                # every listing of a and of b goes; vertices listed beyond the two ends stay associated
+                self.ends[l] = [x for x in self.ends[l] if x not in (a, b)]
                 for x in {a, b}:
                     self.links_of[x].remove(l)
             return ("none",) if destroy else ("set", rem)
+        if name == "av":
+            # Link.add_vertex: the vertex is appended to the link's vertices (even if already listed) and the
+            # link is attached to it unless it already is
+            _, l, x = r
+            self.ends[l].append(x)
+            self._attach(x, l)
+            return ("none",)
         if name == "bulk":
             _, a, b, ci, K = r
             for _ in range(K):
